@@ -1,6 +1,7 @@
 // Replayer for ParseSchema (C19) and UpdateLazy (C20) on TLC-generated pairs of texts.
 // usage: rt_merge <mode:schema|lazy> <cases.tsv> <progress> <start>
-// schema row: id ehex vhex exp_tokens exp2_tokens   (existing document text, schema text, expected after one / two applications)
+// schema row: id ehex vhex exp_tokens exp2_tokens [v2hex exp12_tokens]  (existing document text, schema text, expected after one /
+//             two applications; optionally a second, different schema text and the expected value after v then v2)
 // lazy   row: id thex shex exp_tokens
 #include "sonic/experiment/lazy_update.h"
 #include "sonic/sonic.h"
@@ -35,6 +36,22 @@ static void schema_case(size_t i, const char* tag, const std::string& e, const s
   if (!c.empty()) vh::fail(i, (std::string(tag) + ":merge2").c_str(), "after a second application: " + c + " got=" + w2.substr(0, 6000));
 }
 
+// a sequence of two different updates on one document
+template <typename Doc>
+static void schema_seq(size_t i, const char* tag, const std::string& e, const std::string& v, const std::string& v2, const std::string& exp12) {
+  Doc d;
+  d.Parse(e.data(), e.size());
+  if (d.HasParseError()) return;
+  d.ParseSchema(v.data(), v.size());
+  if (d.HasParseError()) return;                       // reported by schema_case
+  d.ParseSchema(v2.data(), v2.size());
+  if (d.HasParseError()) { vh::fail(i, (std::string(tag) + ":parse-error").c_str(), "ParseSchema of a second text reports error " + std::to_string((int)d.GetParseError())); return; }
+  std::string prob, w = vh::Walk(d, prob);
+  if (!prob.empty()) vh::fail(i, (std::string(tag) + ":accessor").c_str(), prob);
+  std::string c = vh::CompareTokens(exp12, w, nullptr);
+  if (!c.empty()) vh::fail(i, (std::string(tag) + ":merge12").c_str(), "after two different updates: " + c + " got=" + w.substr(0, 6000));
+}
+
 int main(int argc, char** argv) {
   if (argc < 5) { fprintf(stderr, "usage\n"); return 3; }
   std::string mode = argv[1];
@@ -53,6 +70,11 @@ int main(int argc, char** argv) {
       std::string e = vh::unhex(r[1]), v = vh::unhex(r[2]);
       schema_case<Document>(i, "pool", e, v, r[3], r[4]);
       schema_case<SDoc>(i, "simple", e, v, r[3], r[4]);
+      if (r.size() >= 7 && r[5] != "") {
+        std::string v2 = vh::unhex(r[5]);
+        schema_seq<Document>(i, "pool", e, v, v2, r[6]);
+        schema_seq<SDoc>(i, "simple", e, v, v2, r[6]);
+      }
     } else {
       if (r.size() < 4) continue;
       std::string t = vh::unhex(r[1]), s = vh::unhex(r[2]);
